@@ -656,10 +656,12 @@ int main(int argc, char **argv)
         iq("get", "", "p7", {}),
     };
     // ---- exhaustive, presence alphabet -------------------------------------------------------
+    // resources containing '/' and '@' on purpose: the resource is everything after the FIRST '/', the bare JID nothing else
+    const std::string RA = "/r@1", RB = "/home/desk";
     std::vector<Sym> alphaP = {
         conn(0), conn(1), conn(3), simple(Sym::Drop), simple(Sym::Fail),
-        pres(A + "/r1", "available", "s1"), pres(A + "/r1", "unavailable", ""), pres(A + "/r2", "available", "s2"),
-        pres(A + "/r1", "available", "s3"), pres(B, "available", "s4"), pres(A + "/r2", "error", ""), pres(A + "/r2", "unavailable", "bye"),
+        pres(A + RA, "available", "s1"), pres(A + RA, "unavailable", ""), pres(A + RB, "available", "s2"),
+        pres(A + RA, "available", "s3"), pres(B, "available", "s4"), pres(A + RB, "error", ""), pres(A + RB, "unavailable", "bye"),
     };
     // ---- exhaustive, forgery / mutator API / reconfiguration alphabet ----------------------------
     std::vector<Sym> alphaX = {
@@ -700,7 +702,8 @@ int main(int argc, char **argv)
     std::vector<std::string> froms = { "", "", own, ownFull, own + "/other", own + "/", STRANGER, A, A + "/r1",
                                        own + "//", own + "/a/b", "@", "me@", "@example.org", "me2@example.org", "me2@example.org/tab" };
     for (auto &l : LOOKALIKES) froms.push_back(l);
-    const std::vector<std::string> pfroms = { A + "/r1", A + "/r2", A, B + "/r1", B + "/x/y", own + "/home", "", "/r", "carol@example.org/r1" };
+    const std::vector<std::string> pfroms = { A + "/r1", A + "/r2", A, B + "/r1", B + "/x/y", own + "/home", "", "/r", "carol@example.org/r1",
+                                              A + "/home/desk", A + "/desk", B + "/r@1/", A + "/" };
     const std::vector<std::string> ptypes = { "available", "available", "available", "unavailable", "unavailable", "error", "subscribed", "probe", "unsubscribed" };
     auto randItems = [&](int maxN) {
         std::vector<Item> v;
